@@ -1,6 +1,357 @@
-//! C19 — not implemented yet.
-use crate::report::{Cfg, Report};
+//! C19 — resampling never invents, loses or unpairs data (DESIGN §3 C19).
+//!
+//! Events: return value or panic of `bootstrap`, `jackknife`, `shuffle`, `shuffle_two`.
+//! Oracle: the data carry unique tags (a permutation of 0..n plus 0.25), so every output element
+//! names the input position it came from: membership, multiset equality and pairing are exact.
+//! Index uniformity of the bootstrap is decided with an explicit false-alarm bound (χ² at
+//! α = 1e-12, the DKW band at α = 1e-12, and "every index is drawn" where missing one has
+//! probability < 1e-12). Repeated and special values are compared as multisets of bit patterns.
+use crate::gen::{Rng, SPECIALS};
+use crate::oracle::stats;
+use crate::report::{guard, jf, par_cases, Cfg, Hasher, Report};
+use compute::validation::{bootstrap, jackknife, shuffle, shuffle_two};
+use serde_json::{json, Value};
 
-pub fn run(_cfg: &Cfg, rep: &mut Report) {
-    rep.inconclusive("monitor for C19 not implemented".to_string());
+const ALPHA: f64 = 1e-12;
+
+#[cfg(not(miri))]
+fn chi2_sf(x: f64, dof: f64) -> f64 {
+    crate::oracle::special::chi2_sf(x, dof)
+}
+#[cfg(miri)]
+fn chi2_sf(_x: f64, _dof: f64) -> f64 {
+    1.0
+}
+
+fn bits_sorted(xs: &[f64]) -> Vec<u64> {
+    let mut b: Vec<u64> = xs.iter().map(|x| x.to_bits()).collect();
+    b.sort_unstable();
+    b
+}
+
+#[derive(Clone, Copy, PartialEq)]
+enum Class {
+    Distinct,
+    Repeated,
+    Special,
+}
+
+struct Data {
+    x: Vec<f64>,
+    class: Class,
+    /// distinct data: position of tag t (x[pos_of[t]] = t + 0.25)
+    pos_of: Vec<usize>,
+}
+
+fn make_data(rng: &mut Rng, n: usize, class: Class) -> Data {
+    match class {
+        Class::Distinct => {
+            let perm = rng.perm(n);
+            let mut pos_of = vec![0; n];
+            for (i, &t) in perm.iter().enumerate() {
+                pos_of[t] = i;
+            }
+            Data { x: perm.iter().map(|&t| t as f64 + 0.25).collect(), class, pos_of }
+        }
+        Class::Repeated => {
+            let pool = rng.usize(1, 4.min(n).max(1));
+            Data { x: (0..n).map(|_| rng.usize(0, pool - 1) as f64 * 1.5 - 1.0).collect(), class, pos_of: vec![] }
+        }
+        Class::Special => {
+            let x = (0..n).map(|_| if rng.chance(0.7) { *rng.choose(SPECIALS) } else { rng.usize(0, 3) as f64 }).collect();
+            Data { x, class, pos_of: vec![] }
+        }
+    }
+}
+
+impl Data {
+    /// input position of an output value (distinct data only)
+    fn decode(&self, v: f64) -> Option<usize> {
+        let t = v - 0.25;
+        if !(t >= 0.0 && t < self.x.len() as f64 && t.fract() == 0.0) {
+            return None;
+        }
+        let p = self.pos_of[t as usize];
+        (self.x[p].to_bits() == v.to_bits()).then_some(p)
+    }
+}
+
+fn regime_of(d: &Data) -> &'static str {
+    if d.x.len() == 1 {
+        "len=1"
+    } else {
+        match d.class {
+            Class::Distinct => "len>=2:distinct",
+            Class::Repeated => "len>=2:repeated",
+            Class::Special => "len>=2:special",
+        }
+    }
+}
+
+// ---------------------------------------------------------------------------------------------
+
+fn check_bootstrap(rep: &mut Report, d: &Data, nb: usize, seed: u64) {
+    let regime = regime_of(d);
+    let n = d.x.len();
+    rep.case(regime);
+    rep.seen(&format!("cover:bootstrap:{}", regime), 1);
+    let head = |obs: Value| json!({"fn": "bootstrap", "data": jf(&d.x), "len": n, "n_bootstrap": nb, "alea_seed": seed, "observed": obs});
+    alea::set_seed(seed);
+    let out = match guard(|| bootstrap(&d.x, nb)) {
+        Err(msg) => {
+            rep.check("C19.bootstrap.no_panic", regime, false, || head(json!({"panic": msg})));
+            return;
+        }
+        Ok(o) => o,
+    };
+    rep.check("C19.bootstrap.no_panic", regime, true, || json!(null));
+    rep.check("C19.bootstrap.count", regime, out.len() == nb, || head(json!({"resamples": out.len()})));
+    let badlen = out.iter().position(|r| r.len() != n);
+    rep.check("C19.bootstrap.length", regime, badlen.is_none(), || head(json!({"resample": badlen, "its_length": out[badlen.unwrap()].len()})));
+    // membership
+    let mut counts = vec![0u64; n];
+    let mut alien = None;
+    if d.class == Class::Distinct {
+        'o: for (r, res) in out.iter().enumerate() {
+            for (j, &v) in res.iter().enumerate() {
+                match d.decode(v) {
+                    Some(p) => counts[p] += 1,
+                    None => {
+                        alien = Some((r, j, v));
+                        break 'o;
+                    }
+                }
+            }
+        }
+    } else {
+        let set: std::collections::HashSet<u64> = d.x.iter().map(|v| v.to_bits()).collect();
+        'p: for (r, res) in out.iter().enumerate() {
+            for (j, &v) in res.iter().enumerate() {
+                if !set.contains(&v.to_bits()) {
+                    alien = Some((r, j, v));
+                    break 'p;
+                }
+            }
+        }
+    }
+    let member_ok = rep.check("C19.bootstrap.membership", regime, alien.is_none(), || {
+        let (r, j, v) = alien.unwrap();
+        head(json!({"resample": r, "slot": j, "value_not_in_data": crate::report::jnum(v), "bits": format!("{:#018x}", v.to_bits())}))
+    });
+    // uniformity of the pooled index use
+    if d.class != Class::Distinct || !member_ok || n < 2 || badlen.is_some() || out.len() != nb {
+        return;
+    }
+    let total: u64 = counts.iter().sum();
+    let nf = n as f64;
+    let mut failures: Vec<Value> = Vec::new();
+    // (a) DKW band on the index CDF — rigorous for any sample size
+    let eps = stats::dkw_eps(total as usize, ALPHA);
+    let mut cum = 0u64;
+    let mut sup = 0.0f64;
+    for (i, &c) in counts.iter().enumerate() {
+        cum += c;
+        sup = sup.max((cum as f64 / total as f64 - (i + 1) as f64 / nf).abs());
+    }
+    rep.note_max("worst_ratio.bootstrap.dkw(sup/eps)", sup / eps);
+    if sup > eps {
+        failures.push(json!({"test": "DKW", "sup|F_n-F|": sup, "eps": eps, "draws": total}));
+    }
+    // (b) χ²: contiguous blocks and residue classes, expected count per bin >= 16
+    let e_min = 16.0;
+    let bins = ((total as f64 / e_min).floor() as usize).min(n);
+    if bins >= 2 {
+        for by_block in [true, false] {
+            if !by_block && bins == n {
+                break; // one index per bin: both groupings coincide
+            }
+            let mut obs = vec![0.0; bins];
+            let mut size = vec![0.0; bins];
+            for (i, &c) in counts.iter().enumerate() {
+                let b = if by_block { i * bins / n } else { i % bins };
+                obs[b] += c as f64;
+                size[b] += 1.0;
+            }
+            let exp: Vec<f64> = size.iter().map(|s| s / nf * total as f64).collect();
+            let stat = stats::chi2_stat(&obs, &exp);
+            let p = chi2_sf(stat, (bins - 1) as f64);
+            rep.note_max("worst.bootstrap.chi2(-log10 p)", -p.max(1e-300).log10());
+            if !(p >= ALPHA) {
+                failures.push(json!({"test": if by_block {"chi2 over contiguous index blocks"} else {"chi2 over index residue classes"}, "bins": bins, "stat": stat, "p": p}));
+            }
+        }
+        rep.seen("cover:bootstrap:chi2", 1);
+    }
+    // (c) every index is drawn when missing one has probability < α: n·exp(−E) < α
+    let e = total as f64 / nf;
+    if nf * (-e).exp() < ALPHA {
+        if let Some(miss) = counts.iter().position(|&c| c == 0) {
+            failures.push(json!({"test": "every index drawn", "index_never_drawn": miss, "expected_count": e}));
+        }
+        rep.seen("cover:bootstrap:all-indices-hit", 1);
+    }
+    rep.check("C19.bootstrap.uniform_indices", regime, failures.is_empty(), || head(json!({"failed": failures, "counts_first": counts[..n.min(32)]})));
+}
+
+fn check_jackknife(rep: &mut Report, d: &Data) {
+    let regime = regime_of(d);
+    let n = d.x.len();
+    rep.case(regime);
+    rep.seen(&format!("cover:jackknife:{}", regime), 1);
+    let head = |obs: Value| json!({"fn": "jackknife", "data": jf(&d.x), "len": n, "observed": obs});
+    let out = match guard(|| jackknife(&d.x)) {
+        Err(msg) => {
+            rep.check("C19.jackknife.no_panic", regime, false, || head(json!({"panic": msg})));
+            return;
+        }
+        Ok(o) => o,
+    };
+    rep.check("C19.jackknife.no_panic", regime, true, || json!(null));
+    if !rep.check("C19.jackknife.count", regime, out.len() == n, || head(json!({"vectors": out.len()}))) {
+        return;
+    }
+    let mut bad = None;
+    for i in 0..n {
+        let ok = out[i].len() == n - 1 && out[i].iter().zip(d.x[..i].iter().chain(&d.x[i + 1..])).all(|(a, b)| a.to_bits() == b.to_bits());
+        if !ok {
+            bad = Some(i);
+            break;
+        }
+    }
+    rep.check("C19.jackknife.leave_one_out", regime, bad.is_none(), || head(json!({"vector": bad, "got": jf(&out[bad.unwrap()]), "expected": "data without that element, in order"})));
+}
+
+fn check_shuffle(rep: &mut Report, d: &Data, seed: u64, gross: bool) {
+    let regime = regime_of(d);
+    let n = d.x.len();
+    rep.case(regime);
+    rep.seen(&format!("cover:shuffle:{}", regime), 1);
+    let head = |obs: Value| json!({"fn": "shuffle", "data": jf(&d.x), "len": n, "alea_seed": seed, "observed": obs});
+    alea::set_seed(seed);
+    let out = match guard(|| shuffle(&d.x)) {
+        Err(msg) => {
+            rep.check("C19.shuffle.no_panic", regime, false, || head(json!({"panic": msg})));
+            return;
+        }
+        Ok(o) => o,
+    };
+    rep.check("C19.shuffle.no_panic", regime, true, || json!(null));
+    rep.check("C19.shuffle.multiset", regime, bits_sorted(&out) == bits_sorted(&d.x), || head(json!({"output": jf(&out)})));
+    // gross bias: over 64 shuffles every position receives another element at least once (n >= 2, distinct data)
+    if gross && d.class == Class::Distinct && n >= 2 {
+        let mut moved = vec![false; n];
+        for _ in 0..64 {
+            if let Ok(o) = guard(|| shuffle(&d.x)) {
+                for j in 0..n.min(o.len()) {
+                    moved[j] |= o[j].to_bits() != d.x[j].to_bits();
+                }
+            }
+        }
+        let stuck = moved.iter().position(|m| !m);
+        rep.check("C19.shuffle.moves_every_position", regime, stuck.is_none(), || head(json!({"position_never_changed_in_64_shuffles": stuck})));
+    }
+}
+
+fn check_shuffle_two(rep: &mut Report, d: &Data, seed: u64) {
+    let regime = regime_of(d);
+    let n = d.x.len();
+    rep.case(regime);
+    rep.seen(&format!("cover:shuffle_two:{}", regime), 1);
+    // partner array: distinct data carry the same tag (+0.5); otherwise an independent tag so that pairs are identifiable
+    let y: Vec<f64> = if d.class == Class::Distinct { d.x.iter().map(|v| v + 0.5).collect() } else { (0..n).map(|i| i as f64 + 0.125).collect() };
+    let head = |obs: Value| json!({"fn": "shuffle_two", "x": jf(&d.x), "y": jf(&y), "len": n, "alea_seed": seed, "observed": obs});
+    alea::set_seed(seed);
+    let (ox, oy) = match guard(|| shuffle_two(&d.x, &y)) {
+        Err(msg) => {
+            rep.check("C19.shuffle_two.no_panic", regime, false, || head(json!({"panic": msg})));
+            return;
+        }
+        Ok(o) => o,
+    };
+    rep.check("C19.shuffle_two.no_panic", regime, true, || json!(null));
+    rep.check("C19.shuffle_two.multiset", regime, bits_sorted(&ox) == bits_sorted(&d.x) && bits_sorted(&oy) == bits_sorted(&y), || head(json!({"out_x": jf(&ox), "out_y": jf(&oy)})));
+    // one common permutation: the multiset of (x, y) pairs is preserved
+    let mut pin: Vec<(u64, u64)> = d.x.iter().zip(&y).map(|(a, b)| (a.to_bits(), b.to_bits())).collect();
+    let mut pout: Vec<(u64, u64)> = ox.iter().zip(&oy).map(|(a, b)| (a.to_bits(), b.to_bits())).collect();
+    pin.sort_unstable();
+    pout.sort_unstable();
+    let unpaired = ox.iter().zip(&oy).position(|(a, b)| if d.class == Class::Distinct { b - a != 0.5 } else { false });
+    rep.check("C19.shuffle_two.pairing", regime, pin == pout && unpaired.is_none(), || head(json!({"out_x": jf(&ox), "out_y": jf(&oy), "first_unpaired_slot": unpaired})));
+}
+
+/// All n! outcomes for n <= 4: evidence (χ² p-value as a note), asserted only for gross bias (an outcome that never occurs).
+fn permutation_census(cfg: &Cfg, rep: &mut Report) {
+    let reps = cfg.pick(20_000, 100_000, 50);
+    par_cases(cfg, rep, 2, 3, |i, _rng, rep| {
+        let n = i + 2;
+        let data: Vec<f64> = (0..n).map(|k| k as f64 + 0.25).collect();
+        let regime = "len>=2:distinct";
+        let mut seen: std::collections::BTreeMap<Vec<u64>, u64> = std::collections::BTreeMap::new();
+        for _ in 0..reps {
+            rep.case(regime);
+            if let Ok(o) = guard(|| shuffle(&data)) {
+                *seen.entry(o.iter().map(|v| v.to_bits()).collect()).or_insert(0) += 1;
+            }
+        }
+        let fact: usize = (1..=n).product();
+        if !cfg.lite {
+            rep.check("C19.shuffle.all_permutations_occur", regime, seen.len() == fact, || json!({"fn": "shuffle", "len": n, "shuffles": reps, "distinct_outcomes": seen.len(), "expected": fact}));
+        }
+        let obs: Vec<f64> = seen.values().map(|&c| c as f64).collect();
+        let exp = vec![reps as f64 / fact as f64; obs.len()];
+        let stat = stats::chi2_stat(&obs, &exp);
+        rep.note(&format!("evidence.shuffle.permutation_chi2.n={}", n), json!({"shuffles": reps, "outcomes": seen.len(), "stat": stat, "p": chi2_sf(stat, (fact - 1) as f64)}));
+    });
+}
+
+pub fn run(cfg: &Cfg, rep: &mut Report) {
+    rep.rule = "per case: length n from {1, 2, 3..10, 11..100, 101..2000, 2000, 1..64, 1..2000}, data class (tagged distinct values = random permutation of 0..n plus 0.25; repeated values from a pool of <= 4; special values ±0, ±inf, NaN, subnormals with ties), 1..200 resamples, own alea seed; bootstrap, jackknife, shuffle and shuffle_two are each run and checked. non-trivial = n >= 2; distinct by (data bits, n_bootstrap, seed)".into();
+    rep.assume("length 0 is outside the quantifier (\"every length from 1 upward\")");
+    rep.assume("shuffle uniformity is not part of the property (only 'a permutation of its input'): outcome frequencies for n <= 4 are recorded as evidence; asserted is only gross bias (an outcome that never occurs in >= 2e4 shuffles, a position that never changes in 64 shuffles)");
+    rep.assume("bootstrap index uniformity is tested on the pooled draws of one call: DKW band and χ² (bins with expected count >= 16, by contiguous index blocks and by residue classes) at α = 1e-12 each, plus 'every index drawn' when n·exp(−expected) < 1e-12");
+    let n_cases = cfg.pick(400, 10_000, 4);
+    par_cases(cfg, rep, 1, n_cases, |i, rng, rep| {
+        let n = match i % 8 {
+            0 => 1,
+            1 => 2,
+            2 => rng.usize(3, 10),
+            3 => rng.usize(11, 100),
+            4 => rng.usize(101, 2000),
+            5 => *rng.choose(&[2000usize, 1024, 1000, 255, 256, 257]),
+            6 => rng.usize(1, 64),
+            _ => rng.usize(1, 2000),
+        };
+        let class = match if cfg.lite { [0, 1, 3, 4][i % 4] } else { (i / 8) % 5 } {
+            0..=2 => Class::Distinct,
+            3 => Class::Repeated,
+            _ => Class::Special,
+        };
+        // 1..200 resamples; small n get many so that the statistical checks have power
+        let nb = match (i / 40) % 4 {
+            0 => rng.usize(1, 3),
+            1 => rng.usize(150, 200),
+            _ => rng.usize(1, 200),
+        };
+        let d = make_data(rng, n, class);
+        let seed = rng.u64() | 1;
+        rep.distinct(Hasher::new().s("c19").fs(&d.x).u(nb as u64).u(seed).finish(), n >= 2);
+        check_bootstrap(rep, &d, nb, seed);
+        check_jackknife(rep, &d);
+        check_shuffle(rep, &d, seed ^ 0x5555, n <= 200);
+        check_shuffle_two(rep, &d, seed ^ 0xAAAA);
+        if i < 6 {
+            rep.sample(|| json!({"len": n, "class": regime_of(&d), "n_bootstrap": nb, "alea_seed": seed, "data_first": jf(&d.x[..n.min(8)])}));
+        }
+    });
+    permutation_census(cfg, rep);
+    for r in ["len=1", "len>=2:distinct", "len>=2:repeated", "len>=2:special"] {
+        rep.require(r, 1);
+        for f in ["bootstrap", "jackknife", "shuffle", "shuffle_two"] {
+            rep.require(&format!("cover:{}:{}", f, r), 1);
+        }
+    }
+    if !cfg.lite {
+        rep.require("cover:bootstrap:chi2", 1);
+        rep.require("cover:bootstrap:all-indices-hit", 1);
+    }
 }
